@@ -62,6 +62,24 @@ def run(ctx):
         items = [round(rng.gauss(0, 0.05), 3) for _ in range(k)] + [round(rng.uniform(0.3, 1.5) + rng.gauss(0, 0.05), 3) for _ in range(3 * bi)]
         strict, loose = dict(p, threshold=hi), dict(p, threshold=lo)
         ts.append(P.two_runs("CUSUM", strict, loose, items, rng.randrange(10 ** 6), "FirstDriftNotLater", extra={"par": "threshold"}))
+    # streaming kdq-tree: the divergence hovers between the two critical values (light contamination of the first test
+    # window), dips back when calm data dilutes it, and a real drift follows: excursions that do not persist happen in
+    # the looser run only, and whatever the detector does at their end must not delay its alarm behind the stricter run
+    def hover(s):
+        import random
+        r = random.Random(s)
+        W, dim = r.choice([12, 20, 30]), r.choice([1, 2])
+        row = lambda sh: [r.randint(0, 9) + sh for _ in range(dim)]
+        m, frac = r.choice([1, 2]), r.uniform(0.1, 0.5)
+        h = [row(0) for _ in range(W)] + [row(m if r.random() < frac else 0) for _ in range(W + r.randint(0, W // 2))]
+        h += [row(0) for _ in range(r.randint(W // 4, W))] + [row(r.choice([6, 9])) for _ in range(3 * W)]
+        p = dict(window_size=W, persistence=r.choice([0.2, 0.3, 0.5]), bootstrap_samples=40, count_ubound=r.choice([2, 4]))
+        al = [0.5, 0.3, 0.15, 0.05, 0.01]
+        return [P.two_runs("KdqTreeStreaming", dict(p, alpha=al[j]), dict(p, alpha=al[i]), h, s, "FirstDriftNotLater", extra={"par": "alpha"})
+                for i in range(5) for j in range(i + 1, 5)]
+    from ..core import pmap
+    for grp in pmap(hover, [(rng.randrange(10 ** 6),) for _ in range(16 if q else 120)]):
+        ts += grp
     ctx.validate("Product", ts, "strict vs loose detection threshold, same history and seed schedule (12 families)",
                  replay=lambda i: {"mode": "detect", "fam": ts[i]["fam"], "pa": ts[i]["pa"], "pb": ts[i]["pb"], "items": ts[i]["items"], "seed": ts[i]["seed"]},
                  nontrivial=lambda t: any(e["b"]["state"] == "drift" for e in t["ev"]))
